@@ -669,7 +669,7 @@ func runC08(tier string, seed uint64) int {
 			"samples":                     st.samples,
 			"cases":                       st.cases,
 			"commands_compared":           st.steps,
-			"eval_cli_queries":            st.evals,
+			"cli_process_commands":        st.evals,
 			"variants_by_kind":            st.byKind,
 			"distinct_peer_orders":        len(st.peerOrders),
 			"max_map_draws_per_run":       st.maxDraws,
